@@ -136,5 +136,35 @@ func VH_C09_walk() {
 			}
 		}
 	}
+	// a view can be walked any number of times, from the root or from a sub-target: every walk
+	// reports what a first walk reports (link canonicalisation is per walk)
+	target := []string{"", "a"}[v.Choose("second-walk-target", 2)]
+	var again []*types.Stat
+	err = fs.Walk(context.Background(), target, func(p string, d gofs.DirEntry, err error) error {
+		if err != nil {
+			return err
+		}
+		fi, err := d.Info()
+		if err != nil {
+			return err
+		}
+		again = append(again, fi.Sys().(*types.Stat))
+		return nil
+	})
+	v.Assert(err == nil, "a second walk of the same view succeeds")
+	if target == "" {
+		v.Assert(len(again) == len(got), "a second walk of the same view reports the same entries")
+		for i := range again {
+			if i < len(got) {
+				v.Assert(again[i].Path == got[i].Path && again[i].Linkname == got[i].Linkname && again[i].Mode == got[i].Mode, "a second walk of the same view reports the same stats (file / link roles included)")
+			}
+		}
+	} else {
+		v.Cover("sub-target")
+		v.Assert(len(again) == 2 && again[0].Path == "a" && again[1].Path == "a/x", "a sub-target walk reports the target and its contents")
+		if len(again) == 2 {
+			v.Assert(again[1].Linkname == "", "in a sub-target walk the first member of an inode group inside the target is reported as the file")
+		}
+	}
 	v.Cover("done")
 }
